@@ -210,6 +210,32 @@ def opsC10 : List (String × Handler) := [
       return fmt ([cut] ++ tabList n x ++ [frob r r (fun i j => utu i j - one i j), frob r r (fun i j => vtv i j - one i j),
                                            frob m n (fun i j => A i j - rec_ i j)])
     | _ => throw "arity"),
+  -- c10.lstsqsvd m n r hasRcond rcond eps mach A(m*n) U(m*r) sigma(r) V(n*r) b(m)
+  --   -> cut x(n) |U^T U - 1| |V^T V - 1| |A - U S V^T|      (LSTSQ.forward, SVD drivers, kernel unfolded to an SVD)
+  ("c10.lstsqsvd", fun ts => do
+    match ts with
+    | m :: n :: r :: hr :: rcond :: eps :: mach :: rest =>
+      let m ← nat m; let n ← nat n; let r ← nat r; let hr ← nat hr
+      let rcond ← num rcond; let eps ← num eps; let mach ← num mach
+      let (A, rest) ← takeNums (m * n) rest
+      let (U, rest) ← takeNums (m * r) rest
+      let (sg, rest) ← takeNums r rest
+      let (V, rest) ← takeNums (n * r) rest
+      let (b, _) ← takeNums m rest
+      let A := matOf n A; let U := matOf r U; let V := matOf r V; let sg := vecOf sg
+      let ro := if hr == 1 then some rcond else none
+      let cut := lstsqCutoff ro m n eps mach (sg 0)
+      match lstsqForwardSvd m n r U V sg ro eps mach (vecOf b) with
+      | .error e => throw s!"model:{e}"
+      | .ok x =>
+        let one : Nat → Nat → BigF := fun i j => if i = j then BigF.one else BigF.zero
+        let utu := (tab2 r r (matMul m (transpose U) U)).get
+        let vtv := (tab2 r r (matMul n (transpose V) V)).get
+        let us := (tab2 m r fun i t => U i t * sg t).get
+        let rec_ := (tab2 m n (matMul r us (transpose V))).get
+        return fmt ([cut] ++ tabList n x ++ [frob r r (fun i j => utu i j - one i j), frob r r (fun i j => vtv i j - one i j),
+                                             frob m n (fun i j => A i j - rec_ i j)])
+    | _ => throw "arity"),
   -- c10.pinveigh n hasAtol atol hasRtol rtol eps A(n*n) Q(n*n) lam(n) b(n)
   --   -> cut x(n) |Q^T Q - 1| |A - Q L Q^T|           (PINV(hermitian=True).forward with the kernel unfolded to eigh)
   ("c10.pinveigh", fun ts => do
